@@ -11,7 +11,7 @@
  * what the certificate factory put INTO each certificate from <pki>/kinds.tsv; it never looks at
  * the certificates themselves nor at the implementation's state.
  *
- * params: tp=tls|btls|utls  part=core|strict|mixed|trust|trustdeep|crlv|invalid|full|x1|x2|cover|cover2|nocert
+ * params: tp=tls|btls|utls  part=core|strict|mixed|trust|trustdeep|crlv|invalid|full|x1|x2|cover|cover2|nocert|ovr
  *         pki=<dir of make.py --c09>  menu=<hex io menu, default 0>
  *
  * utls: the socket under test is always the utls one; its peer is a plain tls socket (a utls server
@@ -437,6 +437,54 @@ static void build_cell(void)
         place(placement, &p, 0, kind, 0, 0, 0, TC_ROOT, CRL_REVOKING);
         snprintf(g_desc, sizeof g_desc, "policy in the %s map: auth=1 check_time=1 check_crl=1 verify_peer_name=off; peer credential '%s'",
                  PLC[placement], g_kinds[kind].name);
+    } else if (!strcmp(g_part, "ovr")) {
+        /* accept-time override of ONE policy input at a time, with a value whose verdict for the presented
+           peer differs from the server socket's, in both directions (0: the server socket alone would permit,
+           the override refuses; 1: the server socket alone would refuse, the override permits); the material
+           of the server socket and of the accept map each by file and by value.  The oracle's verdict comes
+           from the overriding value (eff_apply: server map, then accept map). */
+        static const char *IN[] = { "tls.crl", "tls.tc", "tls.cert+tls.key", "tls.auth", "tls.check_crl", "tls.check_time",
+                                    "tls.verify_peer_name", "tls.peer_names" };
+        static const char *KS[8][3] = {
+            { "revoked", "under_revoked_inter", "valid" }, { "untrusted_root", "via_untrusted_inter", "valid" },
+            { "wrong_name", "untrusted_root", "expired" }, { "untrusted_root", "expired", "valid" },
+            { "revoked", "under_revoked_inter", "valid" }, { "expired", "not_yet_valid", "valid" },
+            { "valid", "wrong_name", "no_san" }, { "valid", "cn_wrong_san_right", "wrong_name" } };
+        int in = pick(8, "input"), d = pick(2, "direction"), sm = pick(2, "srv-byvalue"), am = pick(2, "acc-byvalue");
+        int kind = kind_by_name(KS[in][pick(3, "kind")]);
+        conf_init(&CC); conf_init(&SC); conf_init(&AC);
+        SC.cred = CRED_OWN; SC.has_cred = 1; SC.cred_mode = sm;
+        SC.auth = 1; SC.time = 1; SC.tc = TC_ROOT; SC.tc_mode = sm;
+        peer_fill(&CC, kind, sm, 0);
+        SC.crl_mode = sm; AC.crl_mode = am; AC.tc_mode = am; AC.cred_mode = am;
+        switch (in) {
+        case 0: SC.crl = 1; SC.crl_b = d ? CRL_REVOKING : CRL_EMPTY; AC.crl_b = d ? CRL_EMPTY : CRL_REVOKING; break;
+        case 1: SC.tc = d ? TC_ROOT : TC_BOTH; AC.tc = d ? TC_BOTH : TC_ROOT; break;
+        case 2:
+            /* the accepted connection presents another certificate: judged at the client, which authenticates
+               the server and verifies its name */
+            conf_init(&CC);
+            CC.cred = CRED_OWN; CC.has_cred = 1; CC.cred_mode = sm;
+            CC.auth = 1; CC.time = 1; CC.tc = TC_ROOT; CC.tc_mode = sm; CC.verify = 1; CC.names = NM_MATCH;
+            SC.cred = d ? kind : V;
+            AC.cred = d ? V : kind; AC.has_cred = 1;
+            break;
+        case 3: SC.auth = d; if (!SC.auth) SC.tc = -1; AC.auth = !d; if (AC.auth) AC.tc = TC_ROOT; break;
+        case 4:
+            SC.crl = d; if (d) SC.crl_b = CRL_REVOKING;
+            AC.crl = !d; if (!d) AC.crl_b = CRL_REVOKING;
+            break;
+        case 5: SC.time = d ? 1 : 0; AC.time = d ? 0 : 1; break;
+        case 6:
+            if (d) { SC.verify = 1; SC.names = NM_NOMATCH; AC.verify = 0; }
+            else { AC.verify = 1; AC.names = NM_NOMATCH; }
+            break;
+        case 7: SC.verify = 1; SC.names = d ? NM_NOMATCH : NM_MATCH; AC.names = d ? NM_MATCH : NM_NOMATCH; break;
+        }
+        snprintf(g_desc, sizeof g_desc, "xcm_accept_a overrides %s of the server socket (%s); server-socket material by %s, accept-map "
+                 "material by %s; %s '%s'", IN[in], d ? "the server socket alone would refuse, the override permits"
+                 : "the server socket alone would permit, the override refuses", sm ? "value" : "file", am ? "value" : "file",
+                 in == 2 ? "the other certificate is" : "peer credential", g_kinds[kind].name);
     } else if (!strcmp(g_part, "nocert")) {
         /* a raw TLS client that presents no certificate at all */
         int placement = 1 + pick(3, "placement");
@@ -605,7 +653,8 @@ static void expect_client(struct expect *x)
         x->want = e.names == NM_HOST ? HOSTNAME : e.names > 0 ? NAMES[e.names] : "";
         return;
     }
-    x->e = satisfied(&e, SC.cred, &x->why, &x->note);
+    /* the server end presents the certificate of the accept map when that carries one */
+    x->e = satisfied(&e, AC.has_cred ? AC.cred : SC.cred, &x->why, &x->note);
 }
 
 static void expect_server(struct expect *x)
@@ -1096,7 +1145,7 @@ static void judge(struct side *x, struct side *peer, struct expect *ex, struct e
     }
     if (ex->e == E_NAMEGATE) {
         mc_count(5, 1);
-        int cred = x == &A ? SC.cred : g_raw_client ? CRED_NONE : CC.cred;
+        int cred = x == &A ? (AC.has_cred ? AC.cred : SC.cred) : g_raw_client ? CRED_NONE : CC.cred;
         const char *have = cred == CRED_NONE ? "" : cred == CRED_OWN ? "own.verif.test" : g_kinds[cred].names;
         const char *saw = x->usable ? "finish-succeeded" : x->got > 0 ? "data-delivered" : peer->got > 0 ? "data-transmitted" : NULL;
         if (saw && !names_overlap(have, ex->want)) {
